@@ -186,6 +186,7 @@ class SpecRegistry:
         self.method_bindings = {}
         self.inline_ok = set()
         self.elem_order = {}
+        self.elem_eq = {}  # class -> (cx, a, b) -> z3 Bool: the contract of the class's own __eq__ (used by `in` on lists)
 
     def elem_lt(self, cx, elt_type):
         """Strict order used by list.sort() for elements of this type (contract of the element's __lt__)."""
